@@ -1279,10 +1279,10 @@ class Pool:
                     if not job.ready() and not job._worker_lost:
                         exitcode = exitcodes.get(acked_by_gone) or 0
                         proc = cleaned.get(acked_by_gone)
+                        job._lost_worker_pid = acked_by_gone
                         if proc and getattr(proc, '_job_terminated', False):
                             job._set_terminated(exitcode)
                         else:
-                            job._lost_worker_pid = acked_by_gone
                             self.on_job_process_lost(
                                 job, acked_by_gone, exitcode,
                             )
@@ -2087,6 +2087,13 @@ class IMapIterator:
 
     def _ack(self, i, time_accepted, pid, *args):
         self._worker_pids[i] = pid
+
+    def _set_terminated(self, signum=None):
+        # terminate_job() hit the worker running one of our parts
+        try:
+            raise Terminated(-(signum or 0))
+        except Terminated:
+            self._set(None, (False, ExceptionInfo()))
 
     def _lost_part(self):
         # a failure without index comes from mark_as_worker_lost(): it
